@@ -7,6 +7,8 @@ context switch into B and one back.  Lock *holding* is tracked through guard obj
 terminators / mem::drop): if B needs a lock that A holds at the pre-emption point, B would block and the schedule needs
 a second pre-emption: the path is abandoned (counted, outside the bound) - never reported.
 """
+import os
+
 from .values import *
 
 
@@ -40,6 +42,8 @@ class Race:
                 self.preempt_site = self.site(I)
                 self.switch_to_b(I)
         other = self.held[1 - self.cur]
+        if os.environ.get("VERIF_RACE_DEBUG") and self.cur == 1 and mode == "w":
+            print("B-ACQUIRE", self.site(I)[-60:], "lock", id(lk.f), "A holds", [(id(g.c), g.site[-40:]) for g in other])
         for g in other:
             if g.c is lk.f and not g.released and (mode == "w" or g.mode == "w"):
                 if self.cur == 1:
@@ -52,6 +56,8 @@ class Race:
 
     def switch_to_b(self, I):
         W = I.world
+        if os.environ.get("VERIF_RACE_DEBUG"):
+            print("SWITCH at", self.count, "A holds", [(g.mode, g.site[-50:], g.released) for g in self.held[0]])
         saved_ctx = W.ctx_stack
         W.ctx_stack = []          # Context::current is a thread local
         saved_stack = I.call_stack
